@@ -70,16 +70,19 @@ func scEphemeral(from, to, altTo int) step {
 	}
 }
 
-func sfSpend(from, to, altTo int) step {
+func sfSpend(from, to, altTo int) step { return sfSpendClaim(from, to, altTo, from) }
+
+// sfSpendClaim moves a siafund output; the accumulated claim is paid to role claim.
+func sfSpendClaim(from, to, altTo, claim int) step {
 	return func(c *stepCtx) ([]types.Transaction, []types.V2Transaction) {
 		own := univ.OwnedSF(c.l, c.as[from].Addr)
 		if len(own) == 0 {
 			return nil, nil
 		}
 		if c.v2() {
-			return nil, []types.V2Transaction{univ.V2SiafundSpend(c.l.State, c.as[from], own[0], dst(c, to, altTo), c.as[from].Addr)}
+			return nil, []types.V2Transaction{univ.V2SiafundSpend(c.l.State, c.as[from], own[0], dst(c, to, altTo), c.as[claim].Addr)}
 		}
-		return []types.Transaction{univ.V1SiafundSpend(c.l.State, c.as[from], own[0], dst(c, to, altTo), c.as[from].Addr)}, nil
+		return []types.Transaction{univ.V1SiafundSpend(c.l.State, c.as[from], own[0], dst(c, to, altTo), c.as[claim].Addr)}, nil
 	}
 }
 
@@ -265,6 +268,7 @@ func stories(reg univ.Regime) []story {
 	v1 := []story{
 		{name: "sc", start: 1, steps: []step{scSpend(1, 2, 3, 0), scEphemeral(1, 2, 3), scSpend(2, 0, 3, 0)}},
 		{name: "sf", start: 1, steps: []step{sfSpend(0, 1, 3), sfSpend(1, 2, 3), scSpend(0, 1, 2, 0)}},
+		{name: "tax-sf", start: 1, steps: []step{v1Form(1, 3, 4, false), sfSpend(0, 1, 3), sfSpendClaim(1, 2, 3, 0), empty()}},
 		{name: "fc-revise-proof", start: 1, steps: []step{v1Form(1, 3, 4, false), v1Revise(0, 3, 4), v1Proof(0, -1)}},
 		{name: "fc-leaf-proof", start: 1, steps: []step{v1Form(1, 2, 4, true), v1Proof(0, -1), empty()}},
 		{name: "fc-newwindow-expire", start: 1, steps: []step{v1Form(1, 2, 3, false), v1Revise(0, 3, 4), empty(), empty()}},
@@ -280,6 +284,7 @@ func stories(reg univ.Regime) []story {
 	v2 := []story{
 		{name: "v2sc", start: v2start, steps: []step{scSpend(1, 2, 3, 0), scEphemeral(1, 2, 3), scSpend(2, 0, 3, 0)}},
 		{name: "v2sf", start: v2start, steps: []step{sfSpend(0, 1, 3), sfSpend(1, 2, 3)}},
+		{name: "v2tax-sf", start: v2start, steps: []step{v2Form(3, 5), sfSpend(0, 1, 3), sfSpendClaim(1, 2, 3, 0)}},
 		{name: "v2fc-revise-renew", start: v2start, steps: []step{v2Form(3, 5), v2Revise(), v2Renew()}},
 		{name: "v2fc-proof", start: v2start, steps: []step{v2Form(1, 4), empty(), v2Proof()}},
 		{name: "v2fc-expire", start: v2start, steps: []step{v2Form(1, 2), empty(), empty(), v2Expire()}},
@@ -329,7 +334,11 @@ func storyUniverse(reg univ.Regime, s story, f int, v storyVariant, surplus int)
 		var v1 []types.Transaction
 		var v2 []types.V2Transaction
 		if st != nil {
-			c := &stepCtx{l: p.L, h: p.Height + 1, as: u.As, alt: alt, mem: m}
+			var roles [4]univ.Actor
+			for r := range roles {
+				roles[r] = u.As[rolePerm[r]]
+			}
+			c := &stepCtx{l: p.L, h: p.Height + 1, as: roles, alt: alt, mem: m}
 			v1, v2 = st(c)
 			if len(v1)+len(v2) > 0 {
 				b := univ.BuildBlock(p.L, univ.TS(u.Net, p.Height+1, salt), u.As[salt%4].Addr, v1, v2)
